@@ -774,7 +774,7 @@ def describe(prog, sources):
     used = sorted({q[1] for q in all_nodes(prog) if q[0] in ("src", "nparray")})
     return {"program": show(prog),
             "sources": {k: {"shape": list(sources[k][0].shape), "chunks": sources[k][1],
-                            "data": sources[k][0].tolist() if sources[k][0].size <= 64 else "<%d elements>" % sources[k][0].size}
+                            "data": sources[k][0].tolist() if sources[k][0].size <= 600 else "<%d elements>" % sources[k][0].size}
                         for k in used}}
 
 
